@@ -52,7 +52,10 @@ def check (c : Ctx) (r : Run) : Verdict :=
             | none => 0
           let natural := l.1 == nb.map (·.offset) && (stride != 0 || l.2.1 == t.laySize)
           let cls := if cls0 == "plain" && !natural then "explicit-attrs" else cls0
-          some s!"s;{s.name};{cls};{l.2.1};{stride};{natList l.1};{natList (nb.map (·.offset))};{t.laySize};{l.2.2}"
+          -- byte lengths for 0, 1, 3 elements of a trailing runtime-sized array, by `Encase.runtimeLen` (what `C10_runtime` speaks about)
+          let rl := if stride == 0 then "" else
+            ".".intercalate ([0, 1, 3].map fun k => s!"{k}:{Encase.runtimeLen l.2.2 (l.1.getLast?.getD 0) stride k}")
+          some s!"s;{s.name};{cls};{l.2.1};{stride};{natList l.1};{natList (nb.map (·.offset))};{t.laySize};{l.2.2};{rl}"
       | _, _ => some s!"s;{s.name};no-such-struct;0;0;;;0"
     -- "any emitted host-shareable struct" can be written through encase only if it derives encase's trait
     let gvt := globalVariableTypes m
